@@ -2,7 +2,8 @@
 // args: <grid spec> <ops> <pass>   The limits vector is derived from symbolic reals: each entry in {-1,0,1,2} (solver-enumerated classes).
 //   ops (comma separated, after "make with limits" and an initial load):
 //   A anisotropic refinement | Sg surplus (global/sequence) | Sc Sf Ss surplus (local/wavelet) | U updateGrid(depth+2) | K construction candidates (+load a few, finish)
-//   X clearLevelLimits (afterwards nothing is restricted)
+//   X clearLevelLimits (afterwards nothing is restricted) | Ud updateGrid(same depth: selects nothing new)
+//   suffixes: ^ this call passes loosened limits (each restricted entry + 2) | v this call passes the original limits again | ! the proposal is left pending (not loaded)
 //   pass: 0 = limits given at make time only (later calls pass none: persistence) ; 1 = make without limits, limits passed to the first later call only
 #include "tgrid.hpp"
 #include <sstream>
@@ -12,9 +13,11 @@ static void buildAdmissible(const GridSpec &g, const std::vector<int> &lim){
   nodes1d.assign(g.dims, std::vector<double>());
   for (int j=0;j<g.dims;j++){
     if (lim.empty() || lim[j] < 0) continue;
-    GridSpec s = g; s.dims = 1; s.outputs = 0; s.depth = lim[j]; s.type = "level"; s.aw.clear(); s.ll.clear();
-    if (g.transform){ s.ta = {g.ta[j]}; s.tb = {g.tb[j]}; }
-    TasmanianSparseGrid one; makeGrid(one, s); nodes1d[j] = one.getPoints();
+    for (int l=0;l<=lim[j];l++){   // union over the levels (non-nested rules: a level does not contain the lower ones)
+      GridSpec s = g; s.dims = 1; s.outputs = 0; s.depth = l; s.type = "level"; s.aw.clear(); s.ll.clear();
+      if (g.transform){ s.ta = {g.ta[j]}; s.tb = {g.tb[j]}; }
+      TasmanianSparseGrid one; makeGrid(one, s); for (double v : one.getPoints()) nodes1d[j].push_back(v);
+    }
   }
 }
 static std::vector<std::vector<double>> preexisting;   // points the grid had before any limits were in force (not bound by later limits)
@@ -46,9 +49,14 @@ int main(int argc, char **argv){
   std::stringstream ss(ops); std::string op; int step = 0;
   while (std::getline(ss, op, ',')){
     if (op.empty()) continue;
-    std::string tag = "step " + std::to_string(step) + " (" + op + "): ";
-    const std::vector<int> &arg = (pass == 1 && first_call && op != "X") ? lim : none;   // limits passed with this call
-    if (pass == 1 && first_call && op != "X"){ active = lim; buildAdmissible(g, active); first_call = false; }
+    bool pending = false, loose_arg = false, tight_arg = false; std::string full = op;
+    while (!op.empty() && (op.back() == '!' || op.back() == '^' || op.back() == 'v')){ if (op.back() == '!') pending = true; if (op.back() == '^') loose_arg = true; if (op.back() == 'v') tight_arg = true; op.pop_back(); }
+    std::vector<int> loose(d); for (int j=0;j<d;j++) loose[j] = lim[j] < 0 ? -1 : lim[j] + 2;
+    std::string tag = "step " + std::to_string(step) + " (" + full + "): ";
+    const std::vector<int> &arg = loose_arg ? loose : tight_arg ? lim : (pass == 1 && first_call && op != "X") ? lim : none;   // limits passed with this call
+    if (tight_arg && grid.getNumLoaded() > 0){ std::vector<double> lp = grid.getLoadedPoints(); for (size_t i=0;i+d<=lp.size();i+=d) preexisting.push_back(std::vector<double>(lp.begin() + i, lp.begin() + i + d)); }   // points loaded under earlier, looser limits stay
+    if (loose_arg || tight_arg){ active = arg; buildAdmissible(g, active); first_call = false; }
+    else if (pass == 1 && first_call && op != "X"){ active = lim; buildAdmissible(g, active); first_call = false; }
     double tol = fpsym_symbolic(0.01, 5 + step, 0.0, 0.3);
     if (op == "X"){ grid.clearLevelLimits(); active = none; buildAdmissible(g, active); fpsym_check(grid.getLevelLimits().empty(), (tag + "clearLevelLimits clears").c_str()); step++; continue; }
     if (op == "K"){
@@ -64,6 +72,7 @@ int main(int argc, char **argv){
     } else if (op == "A"){ grid.setAnisotropicRefinement(type_iptotal, 1, 0, arg);
     } else if (op == "Sg"){ grid.setSurplusRefinement(tol, 0, arg);
     } else if (op == "Sc" || op == "Sf" || op == "Ss"){ grid.setSurplusRefinement(tol, IO::getTypeRefinementString(op == "Sc" ? "classic" : op == "Sf" ? "fds" : "stable"), -1, arg);
+    } else if (op == "Ud"){ grid.updateGrid(g.depth, IO::getDepthTypeString(g.type), g.aw, arg);
     } else if (op == "U"){ grid.updateGrid(g.depth + 2, IO::getDepthTypeString(g.type), g.aw, arg);
     } else { fprintf(stderr, "bad op\n"); return 9; }
     std::vector<int> stored = grid.getLevelLimits();
@@ -71,7 +80,7 @@ int main(int argc, char **argv){
     fpsym_check(admissible(grid.getNeededPoints(), d), (tag + "every needed point respects the limits").c_str());
     fpsym_check(admissible(grid.getLoadedPoints(), d), (tag + "every loaded point respects the limits").c_str());
     fpsym_note(("needed_after_" + op).c_str(), grid.getNumNeeded());
-    if (grid.getNumNeeded() > 0) grid.loadNeededValues(model.values(grid.getNeededPoints(), d));
+    if (grid.getNumNeeded() > 0 && !pending) grid.loadNeededValues(model.values(grid.getNeededPoints(), d));
     step++;
   }
   fpsym_check(admissible(grid.getPoints(), d), "final: every point respects the limits in force");
